@@ -6,6 +6,7 @@
 package main
 
 import (
+	"runtime"
 	"encoding/json"
 	"flag"
 	"fmt"
@@ -75,7 +76,23 @@ type multiFlag []string
 func (m *multiFlag) String() string     { return strings.Join(*m, ",") }
 func (m *multiFlag) Set(s string) error { *m = append(*m, s); return nil }
 
+// memoryWatchdog aborts the run when the verifier itself runs away (a generator bug must not take the machine down).
+func memoryWatchdog() {
+	go func() {
+		var ms runtime.MemStats
+		for {
+			time.Sleep(500 * time.Millisecond)
+			runtime.ReadMemStats(&ms)
+			if ms.HeapAlloc > 12<<30 {
+				fmt.Println("CHECK BROKEN: the verifier exceeded its memory budget of 12 GiB (generator bug); nothing is decided")
+				os.Exit(2)
+			}
+		}
+	}()
+}
+
 func main() {
+	memoryWatchdog()
 	if len(os.Args) < 2 {
 		fmt.Fprintln(os.Stderr, "usage: gocv check|baseline|list ...")
 		os.Exit(2)
@@ -328,6 +345,9 @@ func runCheck(prop, tier string, ovs []string, only string, writeBaseline, noRep
 		for _, ec := range fr.fc.EffectCl {
 			if propOfLabel(ec.Label) != prop {
 				continue
+			}
+			if ec.Never {
+				continue // a `never` clause is expected to match nothing
 			}
 			effTotal[ec.Label] += fr.eng.effectMatches[ec.Label]
 			if fr.undecided == "" {
